@@ -111,12 +111,16 @@ def _run_world(mode, q, orders, seq, isolation, only_strategy=None, variant=None
         side = "atl" if mode == "BACK" else "atb"
         far = [[2.5, 10]] if mode == "BACK" else [[1.5, 10]]
         ticks[0] = [ticks[0][0], ["M", [ticks[0][1], ["B", 1, side, [[p, 1] for p in PRICES] + far]]]]
+    if variant == "suspended-reopened":
+        # after the first trading update the market is suspended (new version) and re-opened (new version): persisted
+        # orders keep resting, and the volume queued ahead of them keeps its place too
+        ticks = ticks[:1] + [[200, ["SUS"]], [200, ["OPN"]]] + ticks[1:]
     scripts = [dict(), dict()]
     index = []
     for n, (side, price, sidx, late) in enumerate(orders):
         if only_strategy is not None and sidx != only_strategy:
             continue
-        scripts[sidx].setdefault((0, 1 if late else 0), []).append(["P", dict(sel=1, side=side, price=price, size=SIZE)])
+        scripts[sidx].setdefault((0, 1 if late else 0), []).append(["P", dict(sel=1, side=side, price=price, size=SIZE, pers="PERSIST" if variant == "suspended-reopened" else "LAPSE")])
         index.append(n)
     skw = dict(max_order_exposure=None, max_selection_exposure=None, max_live_trade_count=10)
     h = Hooks()
@@ -266,11 +270,11 @@ def run(tier):
     # set-up variants: two clients with a user middleware registered before the second client; queue shrinking on
     # the very update that acknowledges the orders
     vseqs = [s for s in seqs if len(s) <= 2]
-    for variant in ("two-clients", "queue-shrinks-on-arrival"):
+    for variant in ("two-clients", "queue-shrinks-on-arrival", "suspended-reopened"):
         for mode in ("BACK", "LAY"):
             for q in (2, 6):
                 for orders in order_configs(mode)[:14]:
-                    if variant == "queue-shrinks-on-arrival" and any(o[3] for o in orders):
+                    if variant in ("queue-shrinks-on-arrival", "suspended-reopened") and any(o[3] for o in orders):
                         continue  # a late order legitimately sees the smaller queue of the book before ITS arrival
                     for seq in vseqs:
                         jobs.append((mode, q, orders, seq, True, variant))
